@@ -19,10 +19,15 @@ for line in open("/verif/KNOWN_FINDINGS.txt"):
     if "Finished" not in o:
         rows.append((prop,commit,"revert-does-not-build",what[:70])); print(rows[-1]); se.sh("git -C /tmp/eval/repo checkout -q -- ."); continue
     env=dict(os.environ, VERIF_ROOT="/tmp/eval/root")
-    p=subprocess.run(f"./target/release/flute-sim check {prop} quick --no-evidence", shell=True, cwd="/tmp/eval/sim", env=env, capture_output=True, text=True)
-    rule=[l.strip()[:150] for l in p.stdout.splitlines() if l.startswith("  rule=")][:1]
-    rows.append((prop,commit,"DETECTED" if p.returncode==1 else f"missed(rc={p.returncode})", (rule[0] if rule else what[:70])))
+    rc,lines=se.run_check(prop, env)
+    rule=[l.strip()[:150] for l in lines][:1]
+    rows.append((prop,commit,"DETECTED" if rc==1 else f"missed(rc={rc})", (rule[0] if rule else what[:70])))
     print(rows[-1], flush=True)
     se.sh("git -C /tmp/eval/repo checkout -q -- .")
-with open("/verif/SENSITIVITY_FIX_REVERT.txt","a" if only else "w") as f:
+keep=[]
+if only and os.path.exists("/verif/SENSITIVITY_FIX_REVERT.txt"):
+    done={r[1] for r in rows}
+    keep=[l for l in open("/verif/SENSITIVITY_FIX_REVERT.txt") if l.split(" | ")[1:2] and l.split(" | ")[1] not in done]
+with open("/verif/SENSITIVITY_FIX_REVERT.txt","w") as f:
+    for l in keep: f.write(l)
     for r in rows: f.write(" | ".join(r)+"\n")
